@@ -108,6 +108,10 @@ Fixpoint r_run (r : rset) (tr : list (op * out)) : rset * bool :=
       let '(r2, bs) := r_run r1 rest in (r2, b && bs)
   end.
 
+(** number of Visit calls in a history (each increments the 64-bit visit counter) *)
+Definition count_visits (ops : list op) : N :=
+  N.of_nat (length (filter (fun o => match o with OVisit _ => true | _ => false end) ops)).
+
 (** The independent reading of "the way last bound to a key": scan the history
     backwards for the most recent operation that mentions the key. *)
 Fixpoint last_bound (k : key) (rev_ops : list op) : option Z :=
